@@ -106,7 +106,7 @@ def build_plan(choice: Choice, tier):
         else:
             ops = []
             for _ in range(1 + d(6, "rand.ops")):
-                o = d(8, "rand.op")
+                o = d(9, "rand.op")
                 if o <= 2:
                     ops.append(["int", d(m + 2, "int")])
                 elif o == 3:
@@ -119,6 +119,8 @@ def build_plan(choice: Choice, tier):
                 elif o == 5:
                     ops.append(["list", [d(m, "list.i") - (m if d(4, "list.neg") == 3 else 0) for _ in range(d(4, "list.len"))] if m else [],
                                 ["list", "tuple", "generator", "iter", "reversed"][d(5, "list.form")]])
+                elif o == 8:
+                    ops.append(["reopen"])      # close() + open() of the shared object, possibly while an iteration is suspended
                 elif o == 6:
                     ops.append(["len"])
                 else:
@@ -306,6 +308,9 @@ def execute(plan, choice, tmpdir, trace):
                             break
                     else:
                         viol.append({"class": "wrong-text", "site": "iterable:length", "message": f"{name} f[{idxs}]"})
+            elif kind == "reopen":
+                obj.close()
+                obj.open()
             elif kind == "len":
                 if len(obj) != len(ref):
                     viol.append({"class": "wrong-text", "site": "len", "message": f"len={len(obj)} expected {len(ref)}"})
@@ -322,6 +327,7 @@ def execute(plan, choice, tmpdir, trace):
             yield kind
 
     crashed = None
+    fds_before = set(os.listdir("/proc/self/fd"))
     try:
         with obj:
             for ci, c in enumerate(plan["clients"]):
@@ -344,6 +350,10 @@ def execute(plan, choice, tmpdir, trace):
         func = f"{m[-1][1]}" if m else "?"
         crashed = {"class": "exception", "site": f"{type(e).__name__}@{func}", "message": repr(e) + " " + tb[-500:]}
         viol.append(crashed)
+    leaked = len(set(os.listdir("/proc/self/fd")) - fds_before)
+    if leaked and crashed is None:
+        viol.append({"class": "resource", "site": "descriptor-leak",
+                     "message": f"{leaked} file descriptors are still open after the file object was closed"})
     seen = set()
     out = []
     for v in viol:
